@@ -145,6 +145,12 @@ def _enc_one(op, variant):
         return encs[variant % len(encs)]
     if o == "PROTO":
         return b"\x80" + bytes([op["a"]])
+    if o == "EXT":          # one spec opcode, three encodings of the same extension code
+        k = op["a"]
+        encs = [b"\x83" + struct.pack("<H", k), b"\x84" + struct.pack("<i", k)]
+        if k < 256:
+            encs.insert(0, b"\x82" + bytes([k]))
+        return encs[variant % len(encs)]
     if o == "FRAME":
         return None  # patched below
     return CODE[o]
@@ -199,6 +205,8 @@ def disassemble(data):
             ops.append({"o": "PERSID", "ty": ty, "v": v, "h": h, "s": s})
         elif name == "PROTO":
             ops.append({"o": "PROTO", "a": int(arg)})
+        elif name in ("EXT1", "EXT2", "EXT4"):
+            ops.append({"o": "EXT", "a": int(arg)})
         else:
             ops.append({"o": name})
     return ops
